@@ -178,11 +178,12 @@ SERIAL_FNS = ["lemma_pool_bytes_is_pf", "StringRef::write", "ColumnType::write_v
 PROPS["C01"]["verus"]["serial"] = SERIAL_FNS
 PROPS["C08"]["verus"]["serial"] = SERIAL_FNS
 
-PROPS["C10"]["verus"]["readers"] = ["PropertyValue::read", "PropertySet::read", "PropertyValue::minimum_version", "Timestamp::read_from"]
+PROPS["C10"]["verus"]["readers"] = ["PropertyValue::read", "PropertySet::read", "PropertyValue::minimum_version", "Timestamp::read_from",
+                                    "lemma_pv_pair", "lemma_le32_rt", "lemma_le16_rt", "lemma_u64_halves", "lemma_i16_rt", "lemma_i32_rt", "lemma_i8_rt"]
 PROPS["C19"]["verus"]["queryfmt"] = ["Delete::fmt", "Insert::fmt", "Update::fmt", "Join::fmt", "Select::format_for_join", "Select::fmt"]
 PROPS["C10"]["verus"]["serial"] = ["PropertyValue::encoded_size_including_padding", "PropertyValue::write", "Timestamp::write_to", "lemma_pad",
                                     "PropertySet::write", "PropertyValue::minimum_version", "PropertyFormatVersion::version_number",
-                                    "lemma_off_aligned", "lemma_size_nonneg", "lemma_size_mono", "lemma_append_keeps", "lemma_prefix_keeps", "vx_btree_iter"]
+                                    "lemma_off_aligned", "lemma_pad4_mod", "lemma_size_nonneg", "lemma_size_mono", "lemma_append_keeps", "lemma_prefix_keeps", "vx_btree_iter"]
 
 PROPS["C15"] = {
     "level": "proof",
